@@ -1028,6 +1028,56 @@ theorem forward_parse {β : Type} (C : BodyCodec β) (maxLen : Nat) (m m2 : Msg 
     · simp [setAttr, ha]
   · rw [r8, hsigattr]
 
+/-- **Received, forwarded, received again** (`parse_foreign` ∘ `forward_parse`).  Any valid message of the specification
+(`parse_foreign`'s premises: either byte order, any field order, any unknown fields of basic types) all of whose known
+fields - SENDER aside - are in the `_headerAttrs` table of its class: the bus parses its bytes, sets `sender`, copies the
+byte-order mark, re-marshals with the raw body; the destination then parses the same class, serial, flags, `otherFlags`,
+body bytes and decoded body, and every attribute of the original, with `sender` = the name the bus set.  (Known fields outside
+the class table: dropped - `forward_drops_field_outside_table`.) -/
+theorem forward_foreign {β : Type} (C : BodyCodec β) (maxLen : Nat)
+    (w : SpecMsg) (hw : w.valid = true) (cls : MsgClass) (hcls : w.mtype = Gen.Message.tables.messageType cls)
+    (known extra : List Field) (hperm : w.fields.Perm (known ++ extra))
+    (hextra : ∀ f ∈ extra, lookupAttr Gen.Message.tables f.1 = none)
+    (hknown : (known.map (fun f => lookupAttr Gen.Message.tables f.1)).Nodup)
+    (fds : Option (List PyVal)) (hfd : ∀ f ∈ w.fields, f.2.ty = .h → fds ≠ none)
+    (hinTab : ∀ f ∈ known, ∀ a, lookupAttr Gen.Message.tables f.1 = some a → a ≠ .sender →
+      ∃ ent ∈ Gen.Message.tables.headerAttrs cls, ent.1 = a)
+    (decoded : β)
+    (hC : ∀ sg, fieldFor Gen.Message.tables known .signature = some (.text .g sg) → sg ≠ [] →
+        C.unmarshal sg w.body (decide (w.endian = .little)) fds = .ok decoded)
+    (sender : List Char) (m m2 : Msg β)
+    (hp : parseMessage Gen.Message.tables C (Spec.encodeMsg w) fds = .ok m)
+    (hf : forward Gen.Message.tables maxLen m (Spec.endianByte w.endian).toNat sender = .ok m2) :
+    ∃ m3 : Msg β, parseMessage Gen.Message.tables C m2.raw fds = .ok m3 ∧
+      m3.cls = cls ∧ m3.serial = w.serial ∧
+      m3.expectReply = decide (w.flags % 2 = 0) ∧ m3.autoStart = decide (w.flags / 2 % 2 = 0) ∧
+      m3.otherFlags = w.flags / 4 * 4 ∧
+      (∀ a, m3.attrs a = if a = .sender then .str .plain sender else
+                         match fieldFor Gen.Message.tables known a with
+                         | some hv => pyOf fds hv
+                         | none => .none) ∧
+      m3.body = m.body ∧ m3.rawBody = w.body ∧ m2.raw.length ≤ maxLen :=
+  forward_foreign_gen Gen.Message.tables tables_ok C maxLen w hw cls hcls known extra hperm hextra hknown fds hfd hinTab
+    (sender_in_every_table cls) decoded hC sender m m2 hp hf
+
+/-- `hinTab` of `forward_foreign` on the known fields of the foreign method return of the example above
+(REPLY_SERIAL, DESTINATION), next to `parse_foreign`'s premises (shown satisfiable there). -/
+example :
+    let known : List Field := [(5, .num .u 3), (6, .text .s ":1.2".toList)]
+    ∀ f ∈ known, ∀ a, lookupAttr Gen.Message.tables f.1 = some a → a ≠ .sender →
+      ∃ ent ∈ Gen.Message.tables.headerAttrs .methodReturn, ent.1 = a := by
+  intro known f hf a ha _
+  simp only [known, List.mem_cons, List.not_mem_nil, or_false] at hf
+  rcases hf with rfl | rfl
+  · have : a = .replySerial := by
+      have h : lookupAttr Gen.Message.tables 5 = some Attr.replySerial := by decide
+      rw [h] at ha; exact (Option.some.inj ha).symm
+    subst this; decide
+  · have : a = .destination := by
+      have h : lookupAttr Gen.Message.tables 6 = some Attr.destination := by decide
+      rw [h] at ha; exact (Option.some.inj ha).symm
+    subst this; decide
+
 /-- The premises of `forward_parse` / `remarshal_parse` hold (`fwdOKB`, the executable form of `hshape`, `hin`, `hnul`:
 `fwdOKB_sound`) for the object `parseMessage` returns for a foreign big-endian method return with REPLY_SERIAL, DESTINATION
 and flags 5, and the forwarding call succeeds on it. -/
@@ -1147,4 +1197,5 @@ end Txdbus.Msg
 #print axioms Txdbus.Msg.remarshal_parse
 #print axioms Txdbus.Msg.sender_in_every_table
 #print axioms Txdbus.Msg.forward_parse
+#print axioms Txdbus.Msg.forward_foreign
 #print axioms Txdbus.Msg.forward_drops_field_outside_table
